@@ -183,6 +183,32 @@ def _public(ctx: Ctx, item):
                     got = (r.PGN, r.source, r.destination, r.priority) if r is not None else None
                     if got != exp and (got is not None or _fresh_ok(second)):
                         out.append((f"C05|cross-entry-point|{name}", f"{case}: after a {name.split('-')[0]} packet with the same identifier bytes the message came back as {got}, expected {exp}", case))
+            # fast-packet PGNs: the stream's previous message was sent with another priority and never completed (its tail was lost);
+            # the next complete message comes back with the priority its own frames carry
+            if d.fast:
+                other = NMEA2000Message(PGN=msg0.PGN, id=msg0.id, fields=msg0.fields, source=src, destination=dest, priority=(prio + 3) % 8)
+                for fmt in ("ebyte", "yd"):
+                    dd = NMEA2000Decoder()
+                    e1, e2 = NMEA2000Encoder(), NMEA2000Encoder()
+                    e2.sequence_counter = 1 if hasattr(e2, "sequence_counter") else 0
+                    r = None
+                    try:
+                        if fmt == "ebyte":
+                            for p in e1.encode_ebyte(other)[:-1]:
+                                dd.decode_tcp(p)
+                            for p in e2.encode_ebyte(m):
+                                r = dd.decode_tcp(p)
+                        else:
+                            for p in e1.encode_yacht_devices(other)[:-1]:
+                                dd.decode_yacht_devices_string("00:00:00.000 R " + p.decode().strip())
+                            for p in e2.encode_yacht_devices(m):
+                                r = dd.decode_yacht_devices_string("00:00:00.000 R " + p.decode().strip())
+                    except Exception:
+                        continue
+                    ctx.klass("fast_after_unfinished_other_priority")
+                    if r is not None and (r.PGN, r.source, r.destination, r.priority) != exp:
+                        out.append((f"C05|after-unfinished-message|{fmt}", f"{case}: after an unfinished message of priority {(prio + 3) % 8} on the stream the complete "
+                                    f"message came back as {(r.PGN, r.source, r.destination, r.priority)}, expected {exp}", case))
             return out
 
         ctx.hyp(check, st.integers(0, 255), st.one_of(st.sampled_from([0, 255, 1, 254]), st.integers(0, 255)),
